@@ -51,6 +51,11 @@ def build(td: Path):
     (td / "caseDict").write_text(LISTSRC)
     for nm in ODD_NAMES:                      # the same source under names a shell or path library might want to expand
         (td / nm).write_text(SRC)
+    # a folder reached through a symbolic link: `current/../common` is the file next to the link's TARGET (store/common)
+    (td / "store" / "case_A").mkdir(parents=True)
+    (td / "store" / "common").write_text("where store;\nn 1;\n")
+    (td / "common").write_text("where here;\nn 2;\n")
+    os.symlink(Path("store") / "case_A", td / "current", target_is_directory=True)
     (td / "src2.json").write_text('{"load case": {"wind speed": {"v": 12.5}, "x": 1}, "plain": {"y": 2}, "n": {"m": {"z": 3}}}')
 
 
@@ -263,6 +268,13 @@ def run(ctx: Ctx) -> None:
             if o["log"]:
                 o["logname"] = rng.choice(ODD_LOGS)
             cases.append({"kind": "run", "o": o, "subprocess": nm in ("~case", "$HOME")})
+    # the input named through a symbolic link to a folder and `..`; an input that does not exist, spelled through a folder
+    # that does not exist either (the operating system does not find it: the command must fail and write nothing)
+    for _ in range(2):
+        o = dict(rng.choice(opts)); o["src"] = "current/../common"; o["scope"] = None; o["log"] = False
+        cases.append({"kind": "run", "o": o, "subprocess": False})
+    for argv in (["nowhere/../src.dict"], ["sub/missing/../../src.dict", "--order"], ["nowhere/../common", "-o", "json"]):
+        cases.append({"kind": "bad", "argv": argv, "subprocess": False})
     for bad in ("aw", "", "wa", "A", "a ", "append", "a\n", "w+", "x"):
         cases.append({"kind": "bad", "argv": ["src.dict", "--mode", bad], "subprocess": bad == "aw"})
         cases.append({"kind": "bad", "argv": ["src.dict", f"--mode={bad}"], "subprocess": False})
